@@ -3,6 +3,7 @@ package props
 import (
 	"fmt"
 	"go/ast"
+	"go/token"
 	"go/types"
 	"sort"
 	"strings"
@@ -300,4 +301,95 @@ func sortsGraph(c *core.Check, info *types.Info, nd ast.Node, g types.Object, me
 		}
 	}
 	return false
+}
+
+// sliceEqualityIssues: a function that walks one slice, compares each element with the element of another slice
+// at the same index, answers false on a difference and true at the end, decides equality only when it also compares
+// the two lengths (in the function, or — for a helper with two slice parameters — it is enough that the function
+// itself does; a prefix test has to say so by not returning true for the longer one).
+type sliceEqIssue struct {
+	Fi   *core.FuncInfo
+	Pos  token.Pos
+	Key  string
+	Text string
+}
+
+func sliceEqualityIssues(p *core.Prog, pkgs []*packages.Package) (issues []sliceEqIssue, n int) {
+	for _, pk := range pkgs {
+		for _, fi := range p.Funcs(pk) {
+			if fi.Decl.Body == nil {
+				continue
+			}
+			sig := fi.Obj.Type().(*types.Signature)
+			if sig.Results().Len() != 1 {
+				continue
+			}
+			if b, ok := sig.Results().At(0).Type().Underlying().(*types.Basic); !ok || b.Kind() != types.Bool {
+				continue
+			}
+			info := fi.Pkg.TypesInfo
+			counts := map[string]int{}
+			ast.Inspect(fi.Decl.Body, func(nd ast.Node) bool {
+				rs, ok := nd.(*ast.RangeStmt)
+				if !ok || rs.Key == nil {
+					return true
+				}
+				if _, isSlice := info.TypeOf(rs.X).Underlying().(*types.Slice); !isSlice {
+					return true
+				}
+				idx := core.ObjOf(info, rs.Key)
+				if idx == nil {
+					return true
+				}
+				// the other slice: B[idx] inside the body, B a different expression of slice type
+				var other ast.Expr
+				ast.Inspect(rs.Body, func(m ast.Node) bool {
+					ix, ok := m.(*ast.IndexExpr)
+					if !ok || core.ObjOf(info, ix.Index) != idx || exprStr(ix.X) == exprStr(rs.X) {
+						return true
+					}
+					if _, isSlice := info.TypeOf(ix.X).Underlying().(*types.Slice); isSlice {
+						other = ix.X
+					}
+					return true
+				})
+				if other == nil {
+					return true
+				}
+				// the body returns false somewhere
+				retFalse := core.Contains(rs.Body, func(m ast.Node) bool {
+					r, ok := m.(*ast.ReturnStmt)
+					return ok && len(r.Results) == 1 && exprStr(r.Results[0]) == "false"
+				})
+				if !retFalse {
+					return true
+				}
+				n++
+				a, b := exprStr(rs.X), exprStr(other)
+				lenCmp := false
+				ast.Inspect(fi.Decl.Body, func(m ast.Node) bool {
+					be, ok := m.(*ast.BinaryExpr)
+					if !ok || (be.Op != token.EQL && be.Op != token.NEQ) {
+						return true
+					}
+					l, r := exprStr(be.X), exprStr(be.Y)
+					if (l == "len("+a+")" && r == "len("+b+")") || (l == "len("+b+")" && r == "len("+a+")") {
+						lenCmp = true
+					}
+					return true
+				})
+				if lenCmp {
+					return true
+				}
+				key := fmt.Sprintf("slice-equality:%s:%s~%s", fname(fi), a, b)
+				counts[key]++
+				if counts[key] > 1 {
+					key = fmt.Sprintf("%s#%d", key, counts[key])
+				}
+				issues = append(issues, sliceEqIssue{fi, rs.Pos(), key, fmt.Sprintf("%s compares %s with %s element by element and never compares their lengths: a path that is a proper prefix of the other counts as equal", fname(fi), a, b)})
+				return true
+			})
+		}
+	}
+	return
 }
